@@ -7,6 +7,18 @@ import xml.etree.ElementTree as ET
 
 BASE_NS = 'urn:ietf:params:xml:ns:netconf:base:1.0'
 DELIM = b']]>]]>'
+END_OF_CHUNKS = b'\n##\n'
+
+def chunk_frame(msg, sizes):
+    """RFC 6242 chunked framing of one message: `sizes` = the chunk lengths (positive; whatever is left after them goes
+    into a last chunk, sizes beyond the end are cut short); the cuts are at octet granularity (inside a tag or a
+    multi-byte character are ordinary places)."""
+    out, i = [], 0
+    for n in list(sizes) + [len(msg)]:
+        n = min(int(n), len(msg) - i)
+        if n <= 0: continue
+        out.append(b'\n#%d\n' % n + msg[i:i + n]); i += n
+    return b''.join(out) + END_OF_CHUNKS
 
 # ------------------------------------------------------------------ handler level
 class _FakeRpc:
@@ -114,8 +126,10 @@ def _install():
     R.uuid4 = lambda: _U(next(cnt))
     _ids = cnt
 
-def make_session(use_filter=True):
-    from ncclient.transport.session import Session
+def make_session(use_filter=True, base=10):
+    """base=11: the session as it is after a capability exchange that selected base:1.1 (both sides advertise it;
+    the Junos profile's client capabilities do): chunked framing in both directions."""
+    from ncclient.transport.session import Session, NetconfBase
     from ncclient.capabilities import Capabilities
     from ncclient import manager
     _install()
@@ -139,6 +153,9 @@ def make_session(use_filter=True):
     dh = manager.make_device_handler({'name': 'junos', 'use_filter': use_filter} if use_filter is not None else {'name': 'junos'})
     s = SegSession(dh)
     s.parser = dh.get_xml_parser(s)          # the SSH-only step, done by hand
+    if base == 11:
+        if ':base:1.1' not in s._client_capabilities: raise RuntimeError('the profile does not advertise base:1.1')
+        s._base = NetconfBase.BASE_11        # what Session._post_connect does when the server's <hello> has base:1.1 too
     return s, dh
 
 def reply_bytes(mid, body, nc=False, extra_attrs=''):
@@ -191,11 +208,11 @@ def collect_results(objs, dh):
             res.append(('pending',))
     return res
 
-def run_stream(segments, filters, use_filter=True, forms=None):
+def run_stream(segments, filters, use_filter=True, forms=None, base=10):
     """One session, len(filters) pipelined requests (filter string or None; forms: see issue_requests), the given
-    read segments.  Returns a list with one outcome per request:
+    read segments (base=11: the session uses chunked framing).  Returns a list with one outcome per request:
       ('reply', raw xml text, transformed xml text) | ('error', class name) | ('pending',)"""
-    s, dh = make_session(use_filter)
+    s, dh = make_session(use_filter, base)
     objs = issue_requests(s, dh, filters, forms)
     s.segments = list(segments)
     s.run()
